@@ -183,13 +183,13 @@ def eff_backoff(ex, sub):
 
 def intr_next_delay_contract(ex, args, name):
     """contract of NextDelayFor used by the transition checks; the contract itself is what C04 (backoff-function
-    obligations) establishes on the real function: 0 <= nominal <= max'+2ns, 0 <= fuzz < 1s, deterministic"""
+    obligations) establishes on the real function: 0 <= nominal <= max'(1+1e-12)+2ns, 0 <= fuzz < 1s, deterministic"""
     sub, attempts = args
     ex.deref_check(sub, 'NextDelayFor')
     mn, mx = eff_backoff(ex, sub)
     nominal = F_nominal()(zint(mn), zint(mx), zint(attempts))
     fuzz = F_fuzz()(zint(ex.getf(sub, 'ID')), zint(attempts))
-    ex.assume(z3.And(nominal >= 0, nominal <= zint(mx) + 2, fuzz >= 0, fuzz < 10**9))
+    ex.assume(z3.And(nominal >= 0, nominal <= zint(mx) + zint(mx) / 10**12 + 2, fuzz >= 0, fuzz < 10**9))
     ex.env.setdefault('backoffs', []).append((mn, mx, attempts, nominal, fuzz))
     return (nominal, simp(nominal + fuzz))
 
